@@ -870,11 +870,14 @@ func (st *ex4State) oracle(v *vio) {
 			if !errors.Is(o.err, nclient4.ErrNoResponse) {
 				v.add("X-fail-error", "%s: failed with %v, want the no-response error (nobody cancelled anything and no socket operation failed)", name, o.err)
 			} else if len(phase) > 0 {
-				if len(phase) != st.tries {
+				// One-sided on purpose: giving up *early* means something that should have been
+				// ignored ended the exchange, which is C13's clause. Taking longer, or more
+				// transmissions, than configured is C11's and C12's business, judged there.
+				if len(phase) < st.tries {
 					v.add("X-fail-count", "%s: gave up after %d transmission(s) of its last message, configured tries = %d", name, len(phase), st.tries)
 				}
-				if want := st.T * time.Duration((int64(1)<<uint(st.tries))-1); !st.stall && o.retT-phase[0].t != want {
-					v.add("X-fail-duration", "%s: gave up %v after first transmitting its last message, want exactly %v (T=%v, tries=%d)", name, o.retT-phase[0].t, want, st.T, st.tries)
+				if want := st.T * time.Duration((int64(1)<<uint(st.tries))-1); !st.stall && o.retT-phase[0].t < want {
+					v.add("X-fail-duration", "%s: gave up %v after first transmitting its last message, before the configured schedule ends at %v (T=%v, tries=%d)", name, o.retT-phase[0].t, want, st.T, st.tries)
 				}
 			}
 		}
@@ -1054,7 +1057,7 @@ func (st *ex4State) checkRelease(v *vio, o *ex4Op, name string) {
 		v.add("X-release-dest", "%s: RELEASE sent to %v, want the lease's server %v:67", name, tx.dest, net.IP(sid))
 	}
 	if o.retT != o.invT && !st.stall {
-		v.add("X-release-wait", "%s: Release waited %v", name, o.retT-o.invT)
+		st.s.Probe("release-took-time (not judged: the statement does not say when Release returns)")
 	}
 }
 
